@@ -8,6 +8,7 @@
 
 #include "canon.hpp"
 #include "gds_peer.hpp"
+#include "oas_peer.hpp"
 #include "gen.hpp"
 #include "scen.hpp"
 
@@ -73,6 +74,63 @@ inline int run(int argc, char** argv) {
                    d.ok, d.strict_ok, d.lib.cells.size(), (unsigned long long)d.census.boundary,
                    (unsigned long long)d.census.path, (unsigned long long)d.census.sref,
                    (unsigned long long)d.census.aref, (unsigned long long)d.census.text, d.error.c_str());
+            if (!d.ok) fails++;
+        }
+    }
+    // 4. OASIS peer: encoder . decoder = identity, all choices; circles compared by centre and radius
+    {
+        auto flat_circles = [](model::MLib& l) {
+            for (auto& c : l.cells)
+                for (auto& p : c.polys)
+                    if (p.hint == 1) {
+                        model::dg_t r = p.cradius;
+                        p.pts = {model::Pt{p.ccenter.x - r, p.ccenter.y}, model::Pt{p.ccenter.x, p.ccenter.y - r},
+                                 model::Pt{p.ccenter.x + r, p.ccenter.y}, model::Pt{p.ccenter.x, p.ccenter.y + r}};
+                    }
+        };
+        int n2 = 3000;
+        uint64_t census_special = 0, census_modal = 0, census_cblock = 0;
+        for (int i = 0; i < n2; i++) {
+            sim::Rng r(scen::run_seed(777, (uint64_t)i));
+            sim::Rng rm = r.fork(1), rc = r.fork(2);
+            model::MLib m = scen::oas_model(rm);
+            oaspeer::Choices ch = oaspeer::random_choices(rc);
+            std::vector<uint8_t> bytes = oaspeer::encode(m, ch);
+            oaspeer::Decoded d = oaspeer::decode(bytes);
+            if (!d.ok || !d.strict_ok) {
+                printf("FAIL oas peer: own stream rejected (run %d): %s\n", i, d.error.c_str());
+                fails++;
+                continue;
+            }
+            census_special += d.census.rectangle + d.census.trapezoid + d.census.ctrapezoid + d.census.circle;
+            census_modal += d.census.modal_reuse;
+            census_cblock += d.census.cblock;
+            model::MLib a = m, b = d.lib;
+            if (!ch.special_shapes)
+                for (auto& c : a.cells)
+                    for (auto& p : c.polys) p.hint = 0;
+            flat_circles(a);
+            flat_circles(b);
+            canon::Options o;
+            o.mode = canon::OAS;
+            canon::CLib ca = canon::from_model(a, o), cb = canon::from_model(b, o);
+            std::string clause, why;
+            if (canon::differ(ca, cb, false, clause, why)) {
+                printf("FAIL oas peer: round trip differs (run %d): %s\n", i, why.substr(0, 600).c_str());
+                fails++;
+            }
+        }
+        printf("oas peer: %d round trips, special shapes %llu, modal reuses %llu, cblocks %llu\n", n2, (unsigned long long)census_special,
+               (unsigned long long)census_modal, (unsigned long long)census_cblock);
+        std::ifstream f("/repo/tests/min_length_path.oas", std::ios::binary);
+        if (f) {
+            std::stringstream ss;
+            ss << f.rdbuf();
+            std::string s = ss.str();
+            std::vector<uint8_t> bytes(s.begin(), s.end());
+            oaspeer::Decoded d = oaspeer::decode(bytes);
+            printf("min_length_path.oas: ok=%d strict=%d cells=%zu paths=%llu polygons=%llu %s\n", d.ok, d.strict_ok, d.lib.cells.size(),
+                   (unsigned long long)d.census.path, (unsigned long long)d.census.polygon, d.error.c_str());
             if (!d.ok) fails++;
         }
     }
